@@ -144,7 +144,7 @@ theorem relaxOne_spec (u : Nat) (du : W) (st : St W) (e : Edge W) :
     cases hd : st.d (other e u) with
     | none =>
       have hR : R = { st with d := fun z => if z = other e u then some (du + e.w) else st.d z,
-                              pred := fun z => if z = other e u then some (u, 0) else st.pred z } := by
+                              pred := fun z => if z = other e u then some (u, e.id) else st.pred z } := by
         simp [R, relaxOne, hv', hd]
       rw [hR]
       refine ⟨rfl, ?_, ?_, ?_, ?_⟩
@@ -163,7 +163,7 @@ theorem relaxOne_spec (u : Nat) (du : W) (st : St W) (e : Edge W) :
     | some y0 =>
       by_cases hlt : du + e.w < y0
       · have hR : R = { st with d := fun z => if z = other e u then some (du + e.w) else st.d z,
-                                pred := fun z => if z = other e u then some (u, 0) else st.pred z } := by
+                                pred := fun z => if z = other e u then some (u, e.id) else st.pred z } := by
           simp [R, relaxOne, hv', hd, hlt]
         rw [hR]
         refine ⟨rfl, ?_, ?_, ?_, ?_⟩
